@@ -1313,7 +1313,50 @@ def w_collapse(failure, tier):
     return dict(found=False, note='collapse: %d requests (2 queries x 3 sorts x up to 8 inner_hits settings) agree with the uncollapsed ranking' % n)
 
 
+def w_relocate(failure, tier):
+    """an index built on the file system, copied to another directory; the COPY is searched, written to, committed and
+    compacted: the original directory must be byte-for-byte what it was and still open, the copy must serve the same hits,
+    and keep working once the original is deleted"""
+    import tempfile
+    base = os.path.join(os.path.dirname(os.path.dirname(os.path.abspath(__file__))), '.cache', 'relocate-%d' % os.getpid())
+    n = 0
+    for nseg in (1, 2, 3):
+        docs = [[{"_id": "d%d_%d" % (b, i), "body": "rust search %d" % i} for i in range(3)] for b in range(nseg)]
+        case = {"dir": base, "docs": docs, "more": [{"_id": "x1", "body": "rust extra"}], "query": "rust"}
+        r = drive('relocate', [_json.dumps(case).encode()])[0]
+        if not r.startswith('OK '):
+            return dict(found=False, note='relocate driver failed: %s' % r[:300])
+        d = _json.loads(r[3:])
+        run = d.get('run') or {}
+        n += 1
+        problems = []
+        if 'panic' in d:
+            problems.append('panic: %s' % d['panic'])
+        if run.get('open_copy') != 'ok':
+            problems.append('the copy does not open: %s' % run.get('open_copy'))
+        if run.get('original_after') != d.get('original_before'):
+            gone = [f[0] for f in d.get('original_before', []) if f not in (run.get('original_after') or [])]
+            problems.append('files of the ORIGINAL directory changed or disappeared: %s' % gone)
+        if run.get('hits_original_after') != d.get('hits_original'):
+            problems.append('the original index afterwards: %s' % _json.dumps(run.get('hits_original_after'))[:200])
+        if run.get('hits_copy') != d.get('hits_original'):
+            problems.append('the copy serves %s, the original %s' % (_json.dumps(run.get('hits_copy'))[:200], _json.dumps(d.get('hits_original'))[:200]))
+        if run.get('log'):
+            problems.append('writes through the copy failed: %s' % run.get('log'))
+        if 'Ok' not in (run.get('hits_copy_alone') or {}) or run.get('hits_copy_alone') != run.get('hits_copy_after_writes'):
+            problems.append('the copy on its own (original deleted): %s' % _json.dumps(run.get('hits_copy_alone'))[:200])
+        if problems:
+            return dict(found=True, cmd='%s relocate <<< hex(json)' % BIN,
+                        input='index of %d segment(s) built at <dir>/a, copied to <dir>/b; through b: search, add one document, commit, compact' % nseg,
+                        observed='; '.join(problems), expected='the original directory untouched and still serving its hits; the copy self-contained')
+    return dict(found=False, note='relocation: %d indexes (1-3 segments) copied, the copy searched / committed / compacted: the original directory is untouched, the copy is self-contained' % n)
+
+
 GENERATORS = {
+    ('U38', 'load'): w_relocate,
+    ('U38', 'segment_paths'): w_relocate,
+    ('U38', 'cleanup_segments'): w_relocate,
+    ('U38', 'open_files'): w_relocate,
     ('U37', 'collapse_group'): w_collapse,
     ('U37', 'collapse_pick'): w_collapse,
     ('U36', 'dismax_arm'): w_boost,
